@@ -74,6 +74,13 @@ struct Ctx {
       }
   }
   void cmpnums(const std::string& form, const std::string& uto, const std::vector<T>& got, const T* want, const T* v) {
+    // a conversion whose result overflows the numeric type (GW.hr -> neV in float) is outside the property ("does not overflow"):
+    // the printed text is then "inf", which carries no number token
+    for (int i = 0; i < N; i++)
+      if (!std::isfinite(want[i])) {
+        vf::stat("skipped_overflowing_conversions");
+        return;
+      }
     vf::stat("comparisons");
     if ((int)got.size() != N) {
       vf::viol(std::string("entry|") + qname + "|" + form + "|" + uname + "->" + uto + "|" + vf::TName<T>::value + "|token-count",
